@@ -416,6 +416,22 @@ pub fn execute(sc: &RegScenario, stats: &mut Stats) -> Outcome {
         }
         norm_obs(o, &root_str)
     };
+    // a fresh instance is observed with freshly built context objects: the long-lived instance
+    // keeps using the long-lived ones (whatever a render may have left behind in a `Context`
+    // must not show)
+    let obs_fresh = |t: &Tera, stats: &mut Stats, out: &mut Outcome, do_render: bool| -> Obs {
+        let c2: Vec<Context> = sc.contexts.iter().map(|c| c.to_context()).collect();
+        let (o, problems) = observe_guarded(t, &c2, &sc.probe, budget, do_render && sc.render_accepted);
+        stats.inc("obs_taken");
+        for (inv, detail) in problems {
+            let p = match inv.as_str() {
+                "render-exceeds-step-budget" => "C11",
+                _ => "C07",
+            };
+            out.violations.push(Violation::new(p, &inv, detail));
+        }
+        norm_obs(o, &root_str)
+    };
     // whether the *current model state* may be rendered in this process (F2 shape: never)
     let mut renderable = true;
 
@@ -516,7 +532,7 @@ pub fn execute(sc: &RegScenario, stats: &mut Stats) -> Outcome {
                     if ok {
                         match catch(|| n.add_raw_templates(manual.iter().map(|(a, b)| (a.as_str(), b.as_str())))) {
                             Ok(Ok(())) => {
-                                let o = obs_r(&n, stats, &mut out, renderable);
+                                let o = obs_fresh(&n, stats, &mut out, renderable);
                                 stats.inc("probe_restart_compared");
                                 if let Some(d) = first_diff(&prev, &o) {
                                     out.violations.push(Violation::new("C10", "restart-differs-from-long-lived-instance", format!("op {}: {}", i, d)));
@@ -861,7 +877,7 @@ pub fn execute(sc: &RegScenario, stats: &mut Stats) -> Outcome {
                     out.violations.push(Violation::new("C10", "fresh-instance-refuses-accepted-set", format!("op {} ({}) succeeded but a fresh instance given the resulting {} templates in one batch fails: {}", i, op.kind(), model.tpls.len(), engine::trunc(&e))));
                 }
                 Ok(f) => {
-                    let fo = obs_r(&f, stats, &mut out, renderable);
+                    let fo = obs_fresh(&f, stats, &mut out, renderable);
                     if let Some(d) = first_diff(&cur, &fo) {
                         out.violations.push(Violation::new("C10", "differs-from-fresh-instance", format!("after op {} ({}), long-lived vs fresh: {}", i, op.kind(), d)));
                     }
